@@ -22,7 +22,9 @@ ASSUMPTIONS = [
     "Node.graph setter is documented as internal and is not used as a mutator",
     "holds on the cases explored only; trusted base = harness oracle (self-tested) + CPython",
 ]
-BUDGET = {"quick": (16, 260), "thorough": (16, 5000)}
+TECHNIQUE = 'stateful property-based testing: generated edit histories (Hypothesis) checked after every step against a global invariant oracle over public accessors; structural shrinking to a JSON replay'
+LEVEL_TEXT = 'Generated-history exploration: thousands of index-decoded edit scripts over a multi-graph universe, with the complete I1-I4 invariant set evaluated after every call (returned or raised). Right level because the property quantifies over unbounded histories; the oracle is global, so any reachable inconsistency in the explored histories is seen.'
+BUDGET = {"quick": (16, 1000), "thorough": (16, 20000)}
 PHASES = ["main", "excl"]
 
 # ops disabled in phase "excl" (exclusion by construction of known-defective variants,
@@ -38,7 +40,7 @@ def strategy(tier, phase):
         names = [n for n in names if n not in EXCLUDED_OPS]
     max_ops = 40 if tier == "quick" else 120
     return st.fixed_dictionaries(
-        {"setup": st.integers(0, 1), "ops": st.lists(U.op_strategy(names), min_size=1, max_size=max_ops)}
+        {"setup": st.integers(0, 1), "safe": st.just(phase == "excl"), "ops": st.lists(U.op_strategy(names), min_size=1, max_size=max_ops)}
     )
 
 
@@ -52,7 +54,7 @@ def execute(case):
     if r["inv_fail"]:
         bucket, msg, k = r["inv_fail"]
         fails.append((bucket, msg))
-        failing_case = {"setup": case.get("setup", 1), "ops": case["ops"][: k + 1]}
+        failing_case = {"setup": case.get("setup", 1), "safe": case.get("safe", False), "ops": case["ops"][: k + 1]}
     nontrivial = r["mutating"] >= 2 and (
         r["raised"] > 0 or r["multi_role"] or r["dup_entry"] or r["moved"]
     )
